@@ -134,7 +134,7 @@ def candidates(p):
 
 def minimise(payload):
     expect = payload["expect"]
-    if payload.get("engine") not in ("world", "c20d", "c20f", "c20g"):
+    if payload.get("engine") not in ("world", "c20d", "c20f", "c20g", "nested_world"):
         from . import engines_ext
         fn = getattr(engines_ext, "minimise", None)
         return fn(payload) if fn else payload
